@@ -21,8 +21,36 @@ from .hist import classify_exception, drop_scratch, new_scratch, short_tb
 from .world import DEFAULT_KNOBS, Knobs, Violation, World, make_config
 
 
+BOUNDARIES = [950, 1000, 1024, 2000]
+
+
+def generate_coverage(prop, seed, tier):
+    """Large packs: does validate() look at every referenced byte? (see run_coverage)"""
+    rng = random.Random(seed)
+    boundary = rng.choice(BOUNDARIES)
+    return {
+        'engine': 'D',
+        'prop': prop,
+        'seed': seed,
+        'tier': tier,
+        'sub': 'coverage',
+        'config': dict(make_config(rng), pack_size_target=4 * 1024**3),
+        'knobs': dict(DEFAULT_KNOBS),
+        'pool': [['empty', 0, 0]],
+        'ops': [],
+        # objects before the special (empty / 1-byte) one: around a round internal batch size
+        'before': boundary + rng.choice([-2, -1, -1, 0, 1]),
+        'special': rng.choice(['empty', 'empty', 'one', 'none']),
+        'after': rng.randint(1, 6),
+        'compress_second_batch': rng.random() < 0.5,
+        'loose_too': rng.random() < 0.3,
+    }
+
+
 def generate(prop, seed, tier='quick'):
     rng = random.Random(seed)
+    if rng.random() < (0.12 if tier == 'quick' else 0.2):
+        return generate_coverage(prop, seed, tier)
     kinds = ['rand', 'text', 'zeros', 'mixed']
     tiny = rng.random() < 0.3
     pool = [['empty', 0, 0], ['zeros', 1, 97]]
@@ -170,6 +198,92 @@ def validate_outcome(lib, folder):
         cont.close()
 
 
+def uncovered_rows(state, trace, folder):
+    """Rows (with length > 0) whose byte range validate() did not read completely: (row, first unread offset)."""
+    covered = {}
+    for rel, pos, length in trace:
+        covered.setdefault(os.path.basename(rel) if '/packs/' in '/' + rel else rel, []).append((pos, pos + length))
+    out = []
+    for name in covered:
+        covered[name].sort()
+    for row in state.rows:
+        if row['length'] == 0:
+            continue
+        pos = row['offset']
+        end = row['offset'] + row['length']
+        for start, stop in covered.get(str(row['pack_id']), []):
+            if start <= pos < stop:
+                pos = stop
+            if pos >= end:
+                break
+        if pos < end:
+            out.append((row, pos))
+    del folder
+    return out
+
+
+def run_coverage(lib, world, case, counts, faults, behaviours):
+    """One validate() run under read tracing on a pack with ~1000-2000 rows. A referenced byte that validate() never
+    reads cannot be protected by it: flip it (and perturb that row's size) and require the usual oracle."""
+    side = world.create_side('c', case['config'])
+    handle = side.handles[0]
+    datas = [b'obj-%d' % i for i in range(case['before'])]
+    if case['special'] == 'empty':
+        datas.append(b'')
+    elif case['special'] == 'one':
+        datas.append(b'x')
+    datas += [b'tail-%d' % i for i in range(case['after'])]
+    with SIM.quiet():
+        keys = handle.add_objects_to_pack(datas, compress=False, do_fsync=False)
+        side.model.update(dict(zip(keys, datas)))
+        more = [b'second-%d' % i for i in range(7)]
+        keys = handle.add_objects_to_pack(more, compress=case['compress_second_batch'], do_fsync=False)
+        side.model.update(dict(zip(keys, more)))
+        if case['loose_too']:
+            for i in range(3):
+                data = b'loose-%d' % i
+                side.model[handle.add_object(data)] = data
+    world.close_all()
+    model = dict(side.model)
+    fresh = lib.Container(side.folder)
+    SIM.io_trace = []
+    try:
+        res = fresh.validate()
+    finally:
+        trace, SIM.io_trace = SIM.io_trace, None
+        fresh.close()
+    if not res.is_valid():
+        raise Violation('validate-not-clean', 'undamaged large container does not validate')
+    evals = 1
+    with SIM.quiet():
+        state = rawread.read_state(side.folder)
+        missing = uncovered_rows(state, trace, side.folder)
+        counts['rows_checked_for_read_coverage'] = counts.get('rows_checked_for_read_coverage', 0) + len(state.rows)
+        pristine = os.path.join(world.root, 'pristine')
+        shutil.copytree(side.folder, pristine)
+        work = os.path.join(world.root, 'work')
+        for row, pos in missing[:3]:
+            for damage in (['bitflip', os.path.join('packs', str(row['pack_id'])), pos, 0], ['index', row['id'], 'size', row['size'] + 1]):
+                if os.path.exists(work):
+                    shutil.rmtree(work)
+                shutil.copytree(pristine, work)
+                apply_damage(work, damage)
+                evals += 1
+                faults[damage[0]] = faults.get(damage[0], 0) + 1
+                why = ground_truth(lib, work, model)
+                outcome = validate_outcome(lib, work)
+                if why is not None:
+                    counts['effective'] += 1
+                    if outcome == 'clean':
+                        raise Violation(
+                            'validate-clean-on-damage',
+                            f'damage {damage}: {why}, but validate() reports no issue (validate() never reads the bytes of row '
+                            f"{row['id']} at offset {row['offset']} of a pack with {len(state.rows)} rows)",
+                        )
+    behaviours.add(f"coverage|{case['before']}|{case['special']}|{len(missing)}")
+    return evals
+
+
 def execute(case):  # pylint: disable=too-many-locals,too-many-statements
     lib = install()
     seed = case['seed']
@@ -185,6 +299,9 @@ def execute(case):  # pylint: disable=too-many-locals,too-many-statements
         with Knobs(case.get('knobs')):
             world = World(root, case, None)
             try:
+                if case.get('sub') == 'coverage':
+                    evals = run_coverage(lib, world, case, counts, faults, behaviours)
+                    raise StopIteration
                 side = world.create_side('c', case['config'])
                 world.run(case['ops'])
                 world.close_all()
@@ -214,6 +331,8 @@ def execute(case):  # pylint: disable=too-many-locals,too-many-statements
                             behaviours.add(f"{damage[0]}|{damage[2] if damage[0] == 'index' else ''}|{outcome}")
                         else:
                             counts['ineffective'] += 1
+            except StopIteration:
+                pass
             except Violation as exc:
                 result['ok'] = False
                 result['violation'] = exc.as_dict()
